@@ -343,7 +343,7 @@ func (o *Outcome) Report(verifDir string, known []KnownFinding, expl Explanation
 			"notes":               o.Notes,
 			"selftest":            o.SelfTest,
 		},
-		Assumptions: expl.Assumptions,
+		Assumptions: append([]string{"go/types and go/ssa (x/tools v0.29.0) represent the program faithfully; no unsafe or reflective mutation of tracked values"}, expl.Assumptions...),
 		WallS:       time.Since(t0).Seconds(),
 		Violations:  nBad,
 	}
